@@ -1113,5 +1113,5 @@ def r10p_pattern_compiled_as_written(ctx):
                 r.violate(key, "%s compiles a pattern at %s whose text went through %s" % (f.root, crate.span_str(c["span"]), edits))
             else:
                 r.ok(sample={"compiled in": f.id.split("::")[-2:], "calls in the slice of the text": len(calls)})
-    r.floor("compilations of exclude patterns", n, 1)
+    r.counts["compilations_of_exclude_patterns"] = n  # no floor: a compile helper that is handed the strings does not read the key itself
     return r
